@@ -31,6 +31,11 @@ RULE = (
     'identities g/0,g/1) on a host, delete request for a live container, '
     'session expiry (+restart, replay of the request dir in either order), '
     'process restart on the same session, admin kill_node, watch delivery, '
+    '(every host has a real service directory: resources/<rid> -> request '
+    'dir with request.yml and, once a create callback returned a result, '
+    'reply.yml as ResourceService._on_created writes it; retry_request '
+    'removes the reply; the files survive restarts and session expiry, so a '
+    'replayed request carries its "already answered" state), '
     '"flt h m k" = one-shot ConnectionLoss on the (k+1)-th next write of '
     'host h (m=0 request lost, m=1 applied but reply lost; kazoo\'s real '
     'KazooRetry runs, its sleep is a schedule point), '
@@ -43,7 +48,10 @@ RULE = (
     'flight on two hosts at the same time, or (b) a delete callback for '
     'container k ran on a host that had already registered a newer container '
     'of the same instance, or (c) a session expired between two ZooKeeper '
-    'calls of one callback (counted besides: stale-watch = a DELETED event '
+    'calls of one callback, or (d) replay-granted-foreign = a request that '
+    'was answered by an earlier run of the service (reply.yml on disk) is '
+    'replayed after a restart and finds one of its nodes owned by another '
+    'session (counted besides: stale-watch = a DELETED event '
     'delivered after the node was registered again, fault-interleaved). kind=unreg (5%): non-trivial = a node in the '
     'scope of the call names another host. kind=unsched (5%): non-trivial '
     '= stale event (instance scheduled, placed on another host, not here). '
@@ -317,7 +325,8 @@ def execute(case, stats):
     flags = sim.run_schedule(case, stats)
     for flag in sorted(flags):
         stats.count('class:' + flag)
-    return bool(flags & {'overlap-cross', 'overlap-samehost', 'expire-mid'})
+    return bool(flags & {'overlap-cross', 'overlap-samehost', 'expire-mid',
+                         'replay-granted-foreign'})
 
 
 def fixed_cases():
@@ -414,6 +423,16 @@ def fixed_cases():
                 ['del', 0, 0], ['new', 0, 0, [0], ['g', 0]],
                 ['fin', 0], ['fin', 0], ['wat', 0], ['wat', 0], ['wat', 0],
                 ['fin', 0], ['fin', 0]]}),
+        # A's session expires after its request was granted, the instance
+        # moves to B, which registers the newer container; only then does A's
+        # restarted service (new session) replay the request directory: the
+        # old request still has its reply.yml and meets B's nodes
+        ('restart-replays-granted-request', {
+            'kind': 'sched', 'hosts': 2, 'ops': [
+                ['new', 0, 0, [0], ['g', 0]], ['fin', 0],
+                ['exp', 0, 0],
+                ['new', 0, 1, [0], ['g', 0]], ['fin', 1],
+                ['fin', 0], ['del', 0, 0], ['fin', 0]]}),
         # witnesses of the findings of round 1 (see notes/C17-notes.md):
         # service restart replays the request dir newest-first, the old
         # request takes /running over, its clean-up unregisters the new one
